@@ -2,6 +2,7 @@
   C07 — every part fits one SMS and carries a correct, parseable concatenation header.
 -/
 import SmsVerif.Lemmas.Split
+import SmsVerif.Props.C14
 
 namespace SmsVerif.C07
 open SmsVerif SmsVerif.Split
@@ -124,6 +125,28 @@ theorem C07_parse_other (c : List Nat)
 
 example : parseLong [6, 8, 4, 1, 2, 3, 1, 0x61] = ⟨258, 3, 1, [0x61], true⟩ := by decide
 
+/-! ### no more parts than filling each part as far as whole characters allow
+
+For each coding the cut the code chooses is the *last* character boundary within the capacity:
+no boundary lies strictly between the cut and `begin + capacity` (proved in Props/C14.lean beside
+the soundness of the rules; the plain rule cuts at the capacity itself). -/
+
+theorem C07_parts_filled_plain (d : List Nat) (b per : Nat) : noBoundary d b (b + per) = b + per := rfl
+theorem C07_parts_filled_gsm (chars : List (List Nat)) (hseg : C14.GsmSeg chars) (per b : Nat)
+    (hlt : b + per < chars.flatten.length) (q : Nat)
+    (h1 : gsmBoundary chars.flatten b (b + per) < q) (h2 : q ≤ b + per) : ¬ IsBoundary chars q :=
+  C14.C07_filled_gsm chars hseg per b hlt q h1 h2
+
+theorem C07_parts_filled_ucs2 (chars : List (List Nat)) (hseg : C14.UcsSeg chars) (per : Nat) (heven : per % 2 = 0)
+    (b : Nat) (hb : IsBoundary chars b) (hlt : b + per < chars.flatten.length) (q : Nat)
+    (h1 : ucs2Boundary chars.flatten b (b + per) < q) (h2 : q ≤ b + per) : ¬ IsBoundary chars q :=
+  C14.C07_filled_ucs2 chars hseg per heven b hb hlt q h1 h2
+
+theorem C07_parts_filled_gb18030 (chars : List (List Nat)) (hseg : C14.GbSeg chars) (per : Nat) (hper : 4 ≤ per)
+    (b : Nat) (hb : IsBoundary chars b) (hlt : b + per < chars.flatten.length) (q : Nat)
+    (h1 : gbBoundary chars.flatten b (b + per) < q) (h2 : q ≤ b + per) : ¬ IsBoundary chars q :=
+  C14.C07_filled_gb18030 chars hseg per hper b hb hlt q h1 h2
+
 end SmsVerif.C07
 
 section
@@ -136,4 +159,7 @@ open SmsVerif.C07
 #print axioms C07_parse_hdr7
 #print axioms C07_parse_part
 #print axioms C07_parse_other
+#print axioms C07_parts_filled_gsm
+#print axioms C07_parts_filled_ucs2
+#print axioms C07_parts_filled_gb18030
 end
